@@ -1,22 +1,20 @@
 #!/bin/bash
 # Re-synchronise the in-crate harness with /repo's current working tree:
-#  - src/<entry> -> /repo/src/<entry> symlinks (so `mod x;` and crate:: paths resolve unchanged)
+#  - src/<entry>: content-synchronised copies of /repo/src/<entry>
 #  - main.rs generated from main.rs.in + the `mod` list of /repo/src/main.rs
 #  - Cargo.toml generated from Cargo.toml.in + /repo's [dependencies]; Cargo.lock, rust-toolchain copied
 set -euo pipefail
 V="$(cd "$(dirname "$0")" && pwd)"
 REPO="${RCE_REPO:-/repo}"
 H="$V/harness"
-# one symlink per entry of /repo/src (files and directories) except main.rs; stale links are removed
+# engine sources are COPIED into harness/src by content (rsync -c): a file's mtime changes exactly
+# when its content changes, so cargo's mtime-based freshness test cannot be fooled by a source tree
+# that was restored with old timestamps; `mod x;` and crate:: paths resolve unchanged
 for l in "$H"/src/*; do
-  if [ -L "$l" ] && [ ! -e "$REPO/src/$(basename "$l")" ]; then rm -f "$l"; fi
+  if [ -L "$l" ]; then rm -f "$l"; fi
 done
-for e in "$REPO"/src/*; do
-  b=$(basename "$e")
-  [ "$b" = "main.rs" ] && continue
-  [ "$b" = "verif" ] && { echo "sync: /repo/src/verif clashes with the harness module" >&2; exit 2; }
-  ln -sfn "$e" "$H/src/$b"
-done
+[ -e "$REPO/src/verif" ] && { echo "sync: /repo/src/verif clashes with the harness module" >&2; exit 2; }
+rsync -rc --delete --exclude '/main.rs' --exclude '/main.rs.in' --exclude '/verif/' --exclude '/.main.*' "$REPO/src/" "$H/src/"
 mods=$(grep -E '^\s*(pub\s+)?mod\s+[a-z_0-9]+\s*;' "$REPO/src/main.rs" | sed -E 's/^\s*(pub\s+)?mod\s+([a-z_0-9]+)\s*;.*/\2/' | sort -u)
 decl=""
 for m in $mods; do
